@@ -489,7 +489,8 @@ pub fn model_of_decoded(d: &Decoded) -> Model {
         for t in &s.tables {
             ms.tables.insert(
                 t.name.clone().unwrap_or_default(),
-                (canon_range(t.r.as_deref().unwrap_or("")), t.columns.iter().map(|c| c.clone().unwrap_or_default()).collect()),
+                // tableColumn/@name is an ST_Xstring: an ECMA-376 reader sees the decoded form
+                (canon_range(t.r.as_deref().unwrap_or("")), t.columns_decoded.clone()),
             );
         }
         m.sheets.push(ms);
@@ -952,6 +953,78 @@ pub fn count_discs(d: &Decoded, out: &mut Vec<Disc>) {
     }
 }
 
+/// Generic `count` rule: an element of an XML part that carries a `count` attribute has that
+/// many child elements (mergeCells, tableParts, tableColumns, fonts, cellXfs, dxfs, authors ...).
+/// `sst` is left out (its `count` is the number of references, see `count_discs`), and so are
+/// the elements for which producer-written corpus originals break the rule (calibration,
+/// `COUNT_RULE_EXEMPT`).
+pub fn count_attr_mismatches(bytes: &[u8]) -> Vec<(String, String, u64, u64)> {
+    use quick_xml::events::Event;
+    let mut out = Vec::new();
+    let Ok(parts) = crate::props::c04::parts(bytes) else { return out };
+    for (name, data) in &parts {
+        if !name.ends_with(".xml") || name.starts_with("docProps/") || name.starts_with("customXml/") {
+            continue;
+        }
+        let mut reader = quick_xml::Reader::from_reader(data.as_slice());
+        let mut buf = Vec::new();
+        // (element, declared count, children seen)
+        let mut stack: Vec<(String, Option<u64>, u64)> = Vec::new();
+        let declared = |e: &quick_xml::events::BytesStart| -> Option<u64> {
+            for a in e.attributes().with_checks(false).flatten() {
+                if a.key.as_ref() == b"count" {
+                    return std::str::from_utf8(&a.value).ok().and_then(|v| v.parse::<u64>().ok());
+                }
+            }
+            None
+        };
+        loop {
+            match reader.read_event_into(&mut buf) {
+                Ok(Event::Start(ref e)) => {
+                    if let Some(top) = stack.last_mut() {
+                        top.2 += 1;
+                    }
+                    stack.push((String::from_utf8_lossy(e.name().as_ref()).to_string(), declared(e), 0));
+                }
+                Ok(Event::Empty(ref e)) => {
+                    if let Some(top) = stack.last_mut() {
+                        top.2 += 1;
+                    }
+                    if let Some(n) = declared(e) {
+                        if n != 0 {
+                            out.push((name.clone(), String::from_utf8_lossy(e.name().as_ref()).to_string(), n, 0));
+                        }
+                    }
+                }
+                Ok(Event::End(_)) => {
+                    if let Some((el, Some(n), seen)) = stack.pop() {
+                        if n != seen {
+                            out.push((name.clone(), el, n, seen));
+                        }
+                    }
+                }
+                Ok(Event::Eof) | Err(_) => break,
+                _ => {}
+            }
+            buf.clear();
+        }
+    }
+    out
+}
+
+/// Elements whose `count` does not mean "number of child elements" or for which producer
+/// originals of the corpus break the rule.
+pub const COUNT_RULE_EXEMPT: [&str; 1] = ["sst"];
+
+pub fn count_attr_discs(bytes: &[u8], out: &mut Vec<Disc>) {
+    for (part, el, n, seen) in count_attr_mismatches(bytes) {
+        if COUNT_RULE_EXEMPT.contains(&el.as_str()) {
+            continue;
+        }
+        disc(out, format!("invalid/count/{}.{}", part_class(&part), el), format!("{}: <{} count=\"{}\"> has {} child elements", part, el, n, seen));
+    }
+}
+
 // ---------------------------------------------------------------------------------------
 // known keys, verdict
 
@@ -994,6 +1067,7 @@ pub fn judge_bytes(bytes: &[u8], model: &Model, macros: Option<Option<&[u8]>>) -
     };
     if !broken {
         count_discs(&dec, &mut out);
+        count_attr_discs(bytes, &mut out);
         out.extend(diff(model, &model_of_decoded(&dec)));
         if let Some(m) = macros {
             let has = dec.parts.iter().any(|p| p == "xl/vbaProject.bin");
@@ -1609,6 +1683,12 @@ pub fn check_corpus_file(file: &str, light: bool, edit: bool) -> Result<CorpusRe
     // calibration: a count rule that fires on the producer's original is not applied
     let mut ocount = Vec::new();
     count_discs(&odec, &mut ocount);
+    count_attr_discs(&bytes, &mut ocount);
+    if std::env::var("VERIF_C02_DUMP").is_ok() {
+        for d in &ocount {
+            eprintln!("CALIBRATE original {} | {} | {}", file, d.key, d.detail);
+        }
+    }
     let ocount: BTreeSet<String> = ocount.into_iter().map(|d| d.key).collect();
     let saved = match guard(|| save(&book, light)) {
         Ok(Ok(b)) => b,
